@@ -27,7 +27,7 @@ theorem foldl_group (cfg : RCfg) (p : Bool) (ms : List Char) (out : List Cell) (
     rw [List.foldl_cons, hstep, ih (acc ++ [m]) (fun x hx => h x (by simp [hx]))]
     simp
 
-theorem setRow_fresh (acc : Acc) (l : Str) (cells : List Cell) (h : findRow acc l = none) :
+theorem setRow_fresh {α : Type} (acc : List (Str × Option α)) (l : Str) (cells : α) (h : findRow acc l = none) :
     setRow acc l cells = acc ++ [(l, some cells)] := by
   induction acc with
   | nil => simp [setRow]
@@ -40,12 +40,12 @@ theorem setRow_fresh (acc : Acc) (l : Str) (cells : List Cell) (h : findRow acc 
         simpa [List.find?, hp] using h
       simp [setRow, hp, ih h']
 
-theorem findRow_none (acc : Acc) (l : Str) (h : ∀ p ∈ acc, (lower p.1 == lower l) = false) : findRow acc l = none := by
+theorem findRow_none {α : Type} (acc : List (Str × Option α)) (l : Str) (h : ∀ p ∈ acc, (lower p.1 == lower l) = false) : findRow acc l = none := by
   unfold findRow
   rw [List.find?_eq_none.mpr (by intro p hp; simp [h p hp])]
   rfl
 
-theorem findRow_append (pre rest : Acc) (l : Str) (h : ∀ p ∈ pre, (lower p.1 == lower l) = false) :
+theorem findRow_append {α : Type} (pre rest : List (Str × Option α)) (l : Str) (h : ∀ p ∈ pre, (lower p.1 == lower l) = false) :
     findRow (pre ++ rest) l = findRow rest l := by
   induction pre with
   | nil => rfl
@@ -56,7 +56,7 @@ theorem findRow_append (pre rest : Acc) (l : Str) (h : ∀ p ∈ pre, (lower p.1
     simp only [List.cons_append, List.find?_cons, hp]
     exact this
 
-theorem setRow_append (pre rest : Acc) (l : Str) (c : List Cell) (h : ∀ p ∈ pre, (lower p.1 == lower l) = false) :
+theorem setRow_append {α : Type} (pre rest : List (Str × Option α)) (l : Str) (c : α) (h : ∀ p ∈ pre, (lower p.1 == lower l) = false) :
     setRow (pre ++ rest) l c = pre ++ setRow rest l c := by
   induction pre with
   | nil => rfl
@@ -64,7 +64,7 @@ theorem setRow_append (pre rest : Acc) (l : Str) (c : List Cell) (h : ∀ p ∈ 
     have hp := h p (by simp)
     simp [setRow, hp, ih (fun q hq => h q (by simp [hq]))]
 
-theorem accRows_someRows (m : Matrix) : accRows (m.map (fun r => (r.1, some r.2))) = m := by
+theorem accRows_someRows {α : Type} (m : List (Str × α)) : accRows (m.map (fun r => (r.1, some r.2))) = m := by
   induction m with
   | nil => rfl
   | cons r rs ih =>
@@ -512,8 +512,8 @@ theorem cells_roundtrip (cfg : RCfg) (cells : List Cell)
 
 /-- cells as they read back, row by row -/
 def normM (m : Matrix) : Matrix := m.map (fun r => (r.1, r.2.map readsAs))
-def someRows (m : Matrix) : Acc := m.map (fun r => (r.1, some r.2))
-def noneRows (m : Matrix) : Acc := m.map (fun r => (r.1, none))
+def someRows {α : Type} (m : List (Str × α)) : List (Str × Option α) := m.map (fun r => (r.1, some r.2))
+def noneRows {α : Type} (m : List (Str × α)) : List (Str × Option α) := m.map (fun r => (r.1, none))
 
 /-- one MATRIX row on either entry path of `_process_discrete_matrix_data`: the label is new (DATA block, taxa
 created on the fly, room left under NTAX) or names a taxon of the TAXA block that has no sequence yet -/
@@ -2802,6 +2802,143 @@ theorem nexml_matrix_columns_any_ids (colId : Nat → Nat) (hinj : ∀ a b, colI
   exact ⟨List.mem_map.mpr ⟨j, by simp; omega, rfl⟩, idxOf_map_inj colId hinj _ _ (by omega)⟩
 
 example : nexmlChars (fun j => 3 * j + 7) [2, 3, 1] = [7, 10, 13] := by decide
+end DendroModel.C09
+
+/-! ## continuous matrices, whole NEXUS matrix -/
+namespace DendroModel.C09
+open DendroModel.C09.Aux DendroModel.Alphabets
+
+/-- one MATRIX row of a continuous block, on either entry path -/
+theorem nexus_continuous_row_step (cfg : NxCfg) (acc : List (Str × Option (List Str))) (label : Str) (toks : List Str)
+    (hk : (findRow acc label = none ∧ (cfg.ntax = 0 ∨ acc.length < cfg.ntax)) ∨ findRow acc label = some none)
+    (hi : cfg.interleave = false)
+    (hok : ∀ t ∈ toks, NumTokOk t) (hlen : toks.length = cfg.nchar) :
+    nxStepC cfg (.ok acc) (label, contRender true toks) = .ok (setRow acc label toks) := by
+  have hrs := continuous_row_roundtrip true toks hok
+  rcases hk with ⟨hf, hroom⟩ | hf
+  · have hroom' : (cfg.ntax == 0 || decide (acc.length < cfg.ntax)) = true := by
+      rcases hroom with h | h <;> simp [h]
+    simp [nxStepC, hf, hroom', hrs, hlen, hi]
+  · simp [nxStepC, hf, hrs, hlen, hi]
+
+theorem nexus_continuous_fold (cfg : NxCfg) (hi : cfg.interleave = false) (taxa : Bool) :
+    ∀ (m P : CMatrix),
+      ((P ++ m).map (fun r => lower r.1)).Nodup →
+      (∀ r ∈ m, ∀ t ∈ r.2, NumTokOk t) → (∀ r ∈ m, r.2.length = cfg.nchar) →
+      (taxa = true ∨ cfg.ntax = 0 ∨ (P ++ m).length ≤ cfg.ntax) →
+      (nxRowsC m).foldl (nxStepC cfg) (.ok (someRows P ++ (if taxa then noneRows m else [])))
+        = .ok (someRows (P ++ m)) := by
+  intro m
+  induction m with
+  | nil => intro P _ _ _ _; cases taxa <;> simp [nxRowsC, noneRows]
+  | cons r rs ih =>
+    intro P hnd hok hlen hnt
+    have hpre : ∀ p ∈ someRows P, (lower p.1 == lower r.1) = false := by
+      intro p hp
+      simp only [someRows, List.mem_map] at hp
+      obtain ⟨q, hq, rfl⟩ := hp
+      simp only [List.map_append, List.map_cons] at hnd
+      have := (List.nodup_append.mp hnd).2.2 (lower q.1) (List.mem_map.mpr ⟨q, hq, rfl⟩) (lower r.1) (by simp)
+      simpa using this
+    have hnd' : (((P ++ [r]) ++ rs).map (fun r => lower r.1)).Nodup := by simpa [List.map_append] using hnd
+    cases taxa with
+    | true =>
+      have hfind : findRow (someRows P ++ noneRows (r :: rs)) r.1 = some none := by
+        rw [findRow_append _ _ _ hpre]; simp [noneRows, findRow]
+      have hstep := nexus_continuous_row_step cfg (someRows P ++ noneRows (r :: rs)) r.1 r.2 (Or.inr hfind) hi
+        (hok r (by simp)) (hlen r (by simp))
+      have hset : setRow (someRows P ++ noneRows (r :: rs)) r.1 r.2 = someRows (P ++ [r]) ++ noneRows rs := by
+        rw [setRow_append _ _ _ _ hpre]; simp [noneRows, someRows, setRow]
+      have := ih (P ++ [r]) hnd' (fun x hx => hok x (by simp [hx])) (fun x hx => hlen x (by simp [hx])) (Or.inl rfl)
+      simp only [nxRowsC, List.map_cons, List.foldl_cons, if_true] at this ⊢
+      rw [hstep, hset, this]
+      simp
+    | false =>
+      have hfresh : findRow (someRows P) r.1 = none := findRow_none _ _ hpre
+      have hroom : cfg.ntax = 0 ∨ (someRows P).length < cfg.ntax := by
+        rcases hnt with h | h | h
+        · cases h
+        · exact Or.inl h
+        · right; simp [someRows] at h ⊢; omega
+      have hstep := nexus_continuous_row_step cfg (someRows P) r.1 r.2 (Or.inl ⟨hfresh, hroom⟩) hi
+        (hok r (by simp)) (hlen r (by simp))
+      have hset : setRow (someRows P) r.1 r.2 = someRows (P ++ [r]) := by
+        rw [setRow_fresh _ _ _ hfresh]; simp [someRows]
+      have := ih (P ++ [r]) hnd' (fun x hx => hok x (by simp [hx])) (fun x hx => hlen x (by simp [hx]))
+        (by rcases hnt with h | h | h
+            · cases h
+            · exact Or.inr (Or.inl h)
+            · right; right; simpa [List.length_append, Nat.add_assoc, Nat.add_comm] using h)
+      simp only [nxRowsC, List.map_cons, List.foldl_cons, Bool.false_eq_true, if_false, List.append_nil] at this ⊢
+      rw [hstep, hset, this]
+      simp
+
+/-- **whole continuous matrix, NEXUS.**  What the writer lays out for a continuous matrix — one row per taxon, every value
+a decimal token followed by a blank, all rows of the declared length, labels distinct up to case — is read back as the
+same taxa in the same order with the same sequence of tokens (hence the same numbers: `parseDec` is a function of the
+token), on the TAXA-block path and on the DATA-block path, and passes the final NCHAR check.  The separator is
+essential: `contRender` puts a blank after every value (without it the tokens fuse, see the example below). -/
+theorem nexus_continuous_matrix_roundtrip (cfg : NxCfg) (m : CMatrix) (hi : cfg.interleave = false)
+    (hlab : (m.map (fun r => lower r.1)).Nodup)
+    (hok : ∀ r ∈ m, ∀ t ∈ r.2, NumTokOk t)
+    (hlen : ∀ r ∈ m, r.2.length = cfg.nchar) (hnt : cfg.ntax = 0 ∨ m.length ≤ cfg.ntax) :
+    nxReadC cfg (m.map (·.1)) (nxRowsC m) = .ok m ∧ nxReadC cfg [] (nxRowsC m) = .ok m := by
+  have hall : (m.all fun r => r.2.length == cfg.nchar) = true := by
+    simp only [List.all_eq_true, beq_iff_eq]; exact hlen
+  constructor
+  · have hf := nexus_continuous_fold cfg hi true m [] (by simpa using hlab) hok hlen (Or.inl rfl)
+    have h0 : (m.map (·.1)).map (fun t => ((t, none) : Str × Option (List Str))) = someRows [] ++ noneRows m := by
+      simp [someRows, noneRows]
+    unfold nxReadC
+    simp only [if_true] at hf
+    rw [h0, hf]
+    simp only [List.nil_append, someRows, accRows_someRows, hall, if_true]
+  · have hf := nexus_continuous_fold cfg hi false m [] (by simpa using hlab) hok hlen
+      (by rcases hnt with h | h
+          · exact Or.inr (Or.inl h)
+          · right; right; simpa using h)
+    unfold nxReadC
+    simp only [List.map_nil, Bool.false_eq_true, if_false, List.append_nil] at hf ⊢
+    have : (.ok ([] : List (Str × Option (List Str))) : Except Err _) = .ok (someRows []) := by simp [someRows]
+    rw [this, hf]
+    simp only [List.nil_append, someRows, accRows_someRows, hall, if_true]
+
+example : (nxReadC ⟨[], [], 3, 2, false⟩ ["a".toList, "b".toList]
+    (nxRowsC [("a".toList, ["0.25".toList, "-9.125".toList, "1e-07".toList]), ("b".toList, ["3.0".toList, "0.25".toList, "5".toList])])).toOption
+    = some [("a".toList, ["0.25".toList, "-9.125".toList, "1e-07".toList]), ("b".toList, ["3.0".toList, "0.25".toList, "5".toList])] := by
+  decide
+/-- values glued without the separator are not a row of the matrix -/
+example : (nxReadC ⟨[], [], 2, 1, false⟩ ["a".toList] [("a".toList, "0.250.25".toList)]).toOption = none := by decide
+end DendroModel.C09
+
+/-! ## continuous rows, PHYLIP line -/
+namespace DendroModel.C09
+open DendroModel.C09.Aux DendroModel.Alphabets
+
+/-- **continuous rows, PHYLIP line.**  The relaxed line the PHYLIP writer lays out for a continuous row — label padded to the
+longest label, two blanks, the values joined by single blanks (`symbols_as_string` of a continuous sequence: the
+separator a base-class sequence would drop) — splits back into the label and exactly the row's value tokens.
+`_partial`: one line (`splitRun` of `phTaxon` + `contRead` = `_parse_sequence_from_line` for continuous data); the
+whole continuous PHYLIP file is not modelled (`phRead` handles discrete symbols), it is compared with the code per row. -/
+theorem phylip_continuous_line_roundtrip_partial (label : Str) (toks : List Str) (width : Nat)
+    (hl : ∀ c ∈ label, isBlank c = false) (hok : ∀ t ∈ toks, NumTokOk t) :
+    (splitRun false (ljust width label ++ [' ', ' '] ++ contRender false toks)).map (fun p => (p.1, contRead p.2))
+      = some (label, .ok toks) := by
+  have hs : ((contRender false toks).head?.map isBlank).getD false = false := by
+    cases toks with
+    | nil => simp [contRender]
+    | cons t ts =>
+      obtain ⟨hne, hws, _⟩ := hok t (by simp)
+      cases t with
+      | nil => exact absurd rfl hne
+      | cons c cs =>
+        have hc : isBlank c = false := isBlank_of_isWs (hws c (by simp))
+        cases ts <;> simp [contRender, hc]
+  rw [phylip_relaxed_line_roundtrip_partial label _ width hl hs]
+  simp [continuous_row_roundtrip false toks hok]
+
+example : (splitRun false (ljust 6 "t1".toList ++ [' ', ' '] ++ contRender false ["0.25".toList, "-9.125".toList])).map
+    (fun p => (p.1, (contRead p.2).toOption)) = some ("t1".toList, some ["0.25".toList, "-9.125".toList]) := by decide
 end DendroModel.C09
 
 /-! ## TITLE / LINK tokens through escaping (`escape_nexus_token`) and the tokenizer, every option setting -/
